@@ -341,11 +341,12 @@ func (c *Float) Ident() string {
 			}
 			return fmt.Sprintf("0x%c%04X", hexPrefix, bits)
 		}
-		if c.X.IsInf() || !float.IsExact16(c.X) {
-			// Round to the nearest half; values beyond its range become infinity
-			// or zero.
-			bits := halfBits(c.X)
-			r, _ := binary16.NewFromBits(bits).Big()
+		// Round to the nearest half; values beyond its range become infinity or
+		// zero. Note, IsExact16 only tells whether the value has a short exact
+		// decimal form, not whether it is a half (4350 is not: 11 bits).
+		bits := halfBits(c.X)
+		r, _ := binary16.NewFromBits(bits).Big()
+		if c.X.IsInf() || !float.IsExact16(c.X) || r.Cmp(c.X) != 0 {
 			if r.IsInf() || !float.IsExact16(r) {
 				return fmt.Sprintf("0x%c%04X", hexPrefix, bits)
 			}
